@@ -95,6 +95,7 @@ type pgen struct {
 	theme   []string
 	curRets []string // return types of the function being generated (nil at top level)
 	inFn    bool
+	blk     bool // this program has block comments between its statements (one program in fourteen: the pinned lexer's block comment runs to the LAST terminator of the file, so such programs lose most of their code)
 }
 
 // AdvNames are identifiers chosen to provoke name handling in the emitters:
@@ -205,6 +206,12 @@ func (g *pgen) fresh(prefix string) string {
 
 func (g *pgen) line(format string, a ...any) {
 	g.sb.WriteString(strings.Repeat("\t", g.indent))
+	if g.blk && g.r.Chance(8) {
+		// a block comment on a line of its own: plain, doc style, banner, several lines, commented-out
+		// code that itself contains a comment opener
+		g.sb.WriteString(g.r.Pick([]string{"/* note */", "/** doc */", "/*/ banner /*/", "/*////// title //////*/", "/* several\n   lines */", "/* old: x := 1 /* was 2 */", "/* a */ /* b */", "/**/", "/* /tmp/x */"}) + "\n")
+		g.sb.WriteString(strings.Repeat("\t", g.indent))
+	}
 	fmt.Fprintf(&g.sb, format, a...)
 	if g.f.Comments && g.r.Chance(10) {
 		g.sb.WriteString(" // " + g.r.Pick([]string{"note", "x := 1", "TODO: check", "\"quoted\"", "{ }"}))
@@ -212,7 +219,9 @@ func (g *pgen) line(format string, a ...any) {
 	g.sb.WriteString("\n")
 }
 
-var words = []string{"alpha", "beta", "gamma", "Hello World", "x", "", "a b", "one,two", "42", "file.txt", "tmp/data", "done", "OK: ", "-", "A", "zz top", "Grüße", "日本語 text", "naïve café"}
+var words = []string{"alpha", "beta", "gamma", "Hello World", "x", "", "a b", "one,two", "42", "file.txt", "tmp/data", "done", "OK: ", "-", "A", "zz top", "Grüße", "日本語 text", "naïve café",
+	// characters that mean something to one of the targets (the converters escape or keep them)
+	"100%", "CPU: 50%, MEM: 70%", "%OS%", "%HOMEDRIVE%%HOMEPATH%", "a%20b%20c", "100%%", "!x!", "a^b", "a & b", "x | y", "<tag>", "$HOME", "${x}", "$(id)", "it's", "(paren)", "~", "*.txt", "a;b", "#hash", "a=b"}
 
 func (g *pgen) strLit() string {
 	if g.f.NoStrLit {
@@ -916,6 +925,7 @@ func (g *pgen) funcDef(globals []variable, public bool) FuncSig {
 // GenProgram produces one source file. tag makes identifiers unique per file.
 func GenProgram(r *Rng, f Feat, imports []ModuleRef, tag string) (string, []FuncSig) {
 	g := &pgen{r: r, f: f, tag: tag}
+	g.blk = f.Comments && r.Chance(25)
 	if f.Comments && r.Chance(40) {
 		g.line("/* generated\n   program %s */", tag)
 	}
